@@ -2,7 +2,8 @@
 # tools/retry_seed.sh <CNN>… — re-run the check of a stored seeded change after the check was strengthened; records the re-trial in meta.json
 cd "$(dirname "$0")/.."
 for id in "$@"; do
-  out=$(tools/try_seed.sh seeded/$id $id 2>&1 | grep -E '^(OK|VIOLATION|KNOWN-FINDING)' | head -2 | tr '\n' ' ')
+  prop=${id%%-*}
+  out=$(tools/try_seed.sh seeded/$id $prop 2>&1 | grep -E '^(OK|VIOLATION|KNOWN-FINDING)' | head -2 | tr '\n' ' ')
   python3 - "$id" "$out" <<'PY'
 import json,sys,time
 p=f"/verif/seeded/{sys.argv[1]}/meta.json"; m=json.load(open(p))
